@@ -24,33 +24,33 @@ const repoModule = "github.com/corazawaf/coraza/v3"
 
 // Global holds the loaded program, the contracts and whole-program analyses.
 type Global struct {
-	fset     *token.FileSet
-	pkgs     []*packages.Package
-	prog     *ssa.Program
-	C        *Contracts
-	repo     string
-	fnByKey  map[string]*ssa.Function
-	tags     map[string]int
-	tagTypes []types.Type
-	mu       sync.Mutex
-	writes   map[writeKey]*writeSet
-	aboveMemo map[*types.Package]map[*types.Package]bool
-	cg       *callgraph.Graph
-	keyInfos map[string]*KeyInfo
-	files    map[string]*ast.File
-	used     map[string]map[string]bool // unit key -> set of trusted contracts it relied on
-	allFns   map[*ssa.Function]bool
-	curInRepo bool
-	constGlobals map[*ssa.Global]*ssa.Const
+	fset          *token.FileSet
+	pkgs          []*packages.Package
+	prog          *ssa.Program
+	C             *Contracts
+	repo          string
+	fnByKey       map[string]*ssa.Function
+	tags          map[string]int
+	tagTypes      []types.Type
+	mu            sync.Mutex
+	writes        map[writeKey]*writeSet
+	aboveMemo     map[*types.Package]map[*types.Package]bool
+	cg            *callgraph.Graph
+	keyInfos      map[string]*KeyInfo
+	files         map[string]*ast.File
+	used          map[string]map[string]bool // unit key -> set of trusted contracts it relied on
+	allFns        map[*ssa.Function]bool
+	curInRepo     bool
+	constGlobals  map[*ssa.Global]*ssa.Const
 	nonNilGlobals map[*ssa.Global]bool
-	rtTypes  []types.Type
-	cbMemo   map[string][]*ssa.Function
-	anyBoxed []types.Type
-	flowInto map[*types.Package]map[*types.Named]bool
-	reachMemo map[*types.Package]map[*types.Named]bool
-	traceSub string
-	traceOut []string
-	ifaceGlobals map[*ssa.Global]types.Type // init-only interface globals with a known dynamic type (io.Discard, ...)
+	rtTypes       []types.Type
+	cbMemo        map[string][]*ssa.Function
+	anyBoxed      []types.Type
+	flowInto      map[*types.Package]map[*types.Named]bool
+	reachMemo     map[*types.Package]map[*types.Named]bool
+	traceSub      string
+	traceOut      []string
+	ifaceGlobals  map[*ssa.Global]types.Type // init-only interface globals with a known dynamic type (io.Discard, ...)
 }
 
 type writeKey struct {
@@ -1453,7 +1453,6 @@ func (g *Global) libCallbackTargets(f *ssa.Function) []*ssa.Function {
 	return out
 }
 
-
 func (g *Global) unitForLocked(fn *ssa.Function) *Unit {
 	if fn.Pkg == nil {
 		return nil
@@ -1876,7 +1875,6 @@ func (g *Global) specialiseLibCall(callee *ssa.Function, c *ssa.CallCommon, add 
 
 var optionalIfaceMethods = map[string]bool{"WriteTo": true, "ReadFrom": true, "Close": true, "Flush": true, "String": true,
 	"Error": true, "Len": true, "ReadByte": true, "WriteString": true, "WriteByte": true, "UnreadByte": true, "Unwrap": true}
-
 
 func namedOf(t types.Type) *types.Named {
 	if p, ok := t.(*types.Pointer); ok {
